@@ -152,7 +152,8 @@ fn op_router(case: &Value) -> Value {
             .collect();
         iters.push(json!(items));
     }
-    json!({"registered": registered, "results": results, "iters": iters})
+    json!({"registered": registered, "results": results, "iters": iters,
+           "has_versioned": router.has_versioned_routes()})
 }
 
 fn main() {
